@@ -21,6 +21,10 @@ CHECKS = {
              technique="custom MIR analysis: loop-exit path rule, guard dominance, operand-role tables on the heap ordering impls", ref="§4 C06"),
  "C10": dict(text="Static necessary conditions of the permutation-group structure: a frozen convention table (x.compose(y) = first x then y; ot[x] maps stab to x) is checked against the operand kinds of every composition in orbit-tree construction, Schreier generators, enumeration, sifting and proof-carrying sifting, kinds being classified from the types of the collections values are drawn from; orbit-table keys and sift look-up keys; add_set retains exactly the non-members, reports growth iff non-empty and rebuilds from old|new; count is the product of orbit sizes; orbit uses all generators; generators() drops only the identity; triviality and the base-point search. Correctness of Schreier-Sims as mathematics is not decided.",
              technique="custom MIR analysis: operand-role (kind) table over resolved compose calls, guard dominance, value dependence", ref="§4 C10"),
+ "C04": dict(text="Static necessary conditions of match completeness: the single-pattern matcher enumerates all live classes, all e-nodes of a class and all group-compatible weak variants of a node, every loop exits only on exhaustion, and the only skips are operator mismatch, shape mismatch and slot-bijection conflict (a frozen list; any other dominating guard is reported); the variant enumeration is the cartesian product of all_perms of every child with 'all groups trivial' as the only shortcut, and every return path of the weak-variant function is derived from it. That each planted instance fires is not decided.",
+             technique="custom MIR analysis: loop-exit path rule, allowed-guard table over dominating conditions, value dependence of return paths", ref="§4 C04"),
+ "C05": dict(text="Static necessary conditions of match soundness: a repeated pattern variable is accepted only behind EGraph::eq, an unbound one is recorded; the slot-map builder returns false on a key conflict and otherwise is_bijection() of the updated map; variants are accepted only on equal name-free shapes and a slot conflict abandons the variant; multi-pattern unify accepts only behind eq or after a successful slot union; the multi-pattern state is re-canonicalised after every slot union and the disequality constraint is tested in both directions; both matchers are read-only by receiver type and call-graph closure. That instantiations are represented is not decided.",
+             technique="custom MIR analysis: guard dominance on non-empty returns, return-value role tables, call-graph closure effect audit", ref="§4 C05"),
  "C02": dict(text="Static necessary conditions of congruence-closure completeness: inter-procedural work-list summaries prove that no public &mut entry point returns with a non-empty work-list in any feature configuration; the drain loop exits only on empty; every class-level change re-queues usages with Full; PendingType::merge truth table; remove/re-insert pairing and self-symmetry derivation in the work-list handler; orbit closure feeds the stored slot set (known finding F1). Does not decide that the fixpoint equals the congruence closure.",
              technique="custom MIR analysis: inter-procedural must-pass-through summaries (greatest fixpoint), path rules, exhaustive constant evaluation of a 2x2 match, value dependence", ref="§4 C02"),
  "C01": dict(text="Static necessary conditions of equality soundness, decided on the MIR of every feature configuration: eq() answers true only via the class-group membership test behind the id and slot-set guards on canonicalised operands; the slot-set writer's cap is an intersection; add-permutation / merge branch discipline; union-find edge orientation. Does not decide soundness of computed slot maps as values.",
